@@ -15,8 +15,10 @@ open FuModel.Xargs
 structure Lims where
   n : Option Nat
   l : Option Nat
-  chars : Nat          -- min of -s and the system budget
+  s : Option Nat       -- -s
+  sys : Nat            -- system budget (strings and one pointer per argument)
   base : Nat           -- cost of command + initial arguments
+  ncmd : Nat           -- number of command words (each also costs a pointer)
 
 def countOk (lm : Lims) (b : List (List UInt8 × Bool)) : Bool :=
   lm.n.all (fun n => b.length ≤ n)
@@ -26,7 +28,10 @@ def linesOk (lm : Lims) (b : List (List UInt8 × Bool)) : Bool :=
   lm.l.all (fun l => 1 + (b.dropLast.filter (·.2)).length ≤ l)
 
 def charsOk (lm : Lims) (b : List (List UInt8 × Bool)) : Bool :=
-  lm.base + (b.map (fun a => a.1.length + 1)).sum ≤ lm.chars
+  let chars := lm.base + (b.map (fun a => a.1.length + 1)).sum
+  lm.s.all (fun s => chars ≤ s) &&
+  chars + 8 * (lm.ncmd + b.length) ≤ lm.sys &&
+  b.all (fun a => a.1.length + 1 ≤ 131072)
 
 def fits (lm : Lims) (b : List (List UInt8 × Bool)) : Bool :=
   countOk lm b && linesOk lm b && charsOk lm b
@@ -53,12 +58,11 @@ def pred (opts : List Opt) (cmd : List (List UInt8)) (input : List UInt8) (sys :
   if nz.replace.isSome then true else
   if opts.any (fun | .n 0 => true | .l 0 => true | .s 0 => true | _ => false) then status == 1 && argvs.isEmpty else
   let sOpt := lastVal opts (fun | .s v => some v | _ => none)
-  let chars := match sOpt with | some s => min s sys | none => sys
   let base := (cmd.map (fun a => a.length + 1)).sum
-  let lm : Lims := ⟨nz.n, nz.l, chars, base⟩
+  let lm : Lims := ⟨nz.n, nz.l, sOpt, sys, base, cmd.length⟩
   let x := opts.any (· == .x)
   let r := opts.any (· == .r)
-  if base > chars then status == 1 && argvs.isEmpty else
+  if !(charsOk lm [] && cmd.all (fun a => a.length + 1 ≤ 131072)) then status == 1 && argvs.isEmpty else
   -- the argument sequence the input denotes
   let toks : Option (List (List UInt8 × Bool)) :=
     match nz.delim with
